@@ -50,8 +50,15 @@ Offered(g, a) == CurOK(g) /\ a \in ToSet(g.P[g.cur].allowed)
 (*   noprog   : consecutive accepted steps without progress (C06)           *)
 (*   anteDone, blindsDone : the forced-bet steps already happened (C13)     *)
 (*   stackAtBlinds : seat -> stack just before the blinds were posted       *)
-Hist0 == [valid |-> TRUE, hadTurn |-> {}, since |-> 0, noprog |-> 0]
-HistJump(t) == [valid |-> ~Betting(t), hadTurn |-> {}, since |-> 0, noprog |-> 0]
+(*   mr       : the minimum raise of the round read from the chips on the     *)
+(*              table: the big blind before any bet, then the size of the    *)
+(*              last FULL bet or raise (a wager increase of at least mr);    *)
+(*              the engine's own PreviousRaiseSize is tied to it by the      *)
+(*              bridging clause C12.minRaiseIsLastFullRaise                  *)
+Hist0 == [valid |-> TRUE, hadTurn |-> {}, since |-> 0, noprog |-> 0, mr |-> 0]
+HistJump(t) == [valid |-> ~Betting(t), hadTurn |-> {}, since |-> 0, noprog |-> 0, mr |-> 0]
+\* the minimum raise in force: from the table when the round was watched from its start, else the engine's field
+MinRaise(g, h) == IF h.valid THEN h.mr ELSE g.prs
 
 PhaseRank(g) ==
   LET r == CASE g.round = "" -> 0 [] g.round = "preflop" -> 1 [] g.round = "flop" -> 2
@@ -77,7 +84,14 @@ HistNext(h, g, t, o) ==
   IN [valid |-> h.valid \/ enter,
       hadTurn |-> IF enter THEN {} ELSE IF act THEN (IF wentUp THEN {i} ELSE h.hadTurn \cup {i}) ELSE h.hadTurn,
       since |-> IF enter THEN 0 ELSE IF act THEN (IF wentUp \/ allin THEN 0 ELSE h.since + 1) ELSE h.since,
-      noprog |-> IF ~accepted THEN h.noprog ELSE IF Progress(g, t) THEN 0 ELSE h.noprog + 1]
+      noprog |-> IF ~accepted THEN h.noprog ELSE IF Progress(g, t) THEN 0 ELSE h.noprog + 1,
+      mr |-> IF enter THEN (IF t.round = "preflop" THEN (IF t.meta.bb > 0 THEN t.meta.bb ELSE t.prs) ELSE 0)
+             \* a bet sets it; a raise or an all-in sets it when it is a full raise; a call never does (not even the
+             \* engine's completion of a call up to the big blind, nor Raise(x) with x = the wager to match, which is a call)
+             ELSE IF act /\ wentUp /\ o.op = "Bet" THEN ToMatch(t) - ToMatch(g)
+             ELSE IF act /\ wentUp /\ (o.op = "Allin" \/ (o.op = "Raise" /\ o.x > ToMatch(g))) /\ ToMatch(t) - ToMatch(g) >= h.mr
+                  THEN ToMatch(t) - ToMatch(g)
+             ELSE h.mr]
 
 -----------------------------------------------------------------------------
 (* C01 - chips are conserved at every point of a hand                       *)
@@ -197,7 +211,7 @@ C06_bounded(t, h2) == h2.noprog <= 2 * t.n
 
 (* C11 - offered actions fit the situation and do what they say             *)
 MinBet(g) == IF g.meta.dealerBlind > g.meta.bb THEN g.meta.dealerBlind ELSE g.meta.bb
-C11_offer(t) == (Betting(t) /\ CurOK(t)) =>
+C11_offer(t, h2) == (Betting(t) /\ CurOK(t)) =>
   LET p == t.P[t.cur]  A == ToSet(p.allowed)  tm == ToMatch(t)  facing == p.wager < tm IN
   IF p.fold \/ p.stack = 0 THEN p.allowed = <<"pass">>
   ELSE /\ "allin" \in A /\ "pass" \notin A
@@ -207,7 +221,7 @@ C11_offer(t) == (Betting(t) /\ CurOK(t)) =>
        /\ "call" \in A => facing
        /\ (tm = 0 /\ p.init >= MinBet(t)) => "bet" \in A
        /\ "bet" \in A => tm = 0
-       /\ (tm > 0 /\ p.init > tm + t.prs /\ p.init >= MinBet(t)) => "raise" \in A
+       /\ (tm > 0 /\ p.init > tm + MinRaise(t, h2) /\ p.init >= MinBet(t)) => "raise" \in A
        /\ "raise" \in A => tm > 0
 NoChipsMoved(g, t) ==
   /\ \A j \in Seats(g) : t.P[j].stack = g.P[j].stack /\ t.P[j].wager = g.P[j].wager /\ t.P[j].pot = g.P[j].pot
@@ -217,21 +231,27 @@ Acts(g, t, o) == Betting(g) /\ o.ok /\ CurOK(g) /\ o.seat = g.cur /\ IsAction(o.
 C11_effect(g, t, o) == Acts(g, t, o) =>
   LET i == o.seat IN
   /\ o.op \in {"Check", "Fold", "Pass"} => NoChipsMoved(g, t)
-  /\ o.op = "Call" => t.P[i].wager = ToMatch(t)
+  \* level with the wager to match - never beyond it (the engine completes a call of less than the big blind
+  \* up to the big blind: that is the furthest a call may go), never short of it unless the caller is all-in
+  /\ o.op = "Call" => /\ t.P[i].wager = ToMatch(t)
+                      /\ t.P[i].wager <= Max2(ToMatch(g), g.meta.bb)
+                      /\ (t.P[i].wager >= ToMatch(g) \/ t.P[i].stack = 0)
   /\ (o.op = "Bet" /\ 0 < o.x /\ o.x < g.P[i].stack) => (ToMatch(t) = o.x /\ t.P[i].wager = o.x /\ t.cw = o.x)
   /\ o.op = "Allin" => (t.P[i].wager = g.P[i].init /\ t.P[i].stack = 0)
 
 (* C12 - raise sizes obey the minimum-raise rule; amounts cannot corrupt    *)
 C12_cwIsToMatch(t) == t.ev \in {"RoundStarted", "RoundClosed"} => t.cw = ToMatch(t)
-C12_raise(g, t, o) ==
+C12_raise(g, t, o, h) ==
   (o.op = "Raise" /\ Betting(g) /\ CurOK(g) /\ o.seat = g.cur /\ Offered(g, "raise") /\ g.meta.limit = "no" /\ t.n = g.n) =>
   LET i == o.seat  L == o.x  tm == ToMatch(g) IN
-  /\ (L < g.P[i].init /\ L > tm /\ L - tm >= g.prs) =>
+  /\ (L < g.P[i].init /\ L > tm /\ L - tm >= MinRaise(g, h)) =>
         (o.ok /\ ToMatch(t) = L /\ t.cw = L /\ t.raiser = i /\ t.prs = L - tm /\ t.P[i].wager = L)
-  /\ (L > tm /\ L - tm < g.prs) => (~o.ok \/ t.P[i].stack = 0)
+  /\ (L > tm /\ L - tm < MinRaise(g, h)) => (~o.ok \/ t.P[i].stack = 0)
   /\ (L < tm) => (~o.ok /\ t = g)
 C12_monotone(g, t, o) ==
   (Betting(g) /\ t.round = g.round /\ t.ev \in {"RoundStarted", "RoundClosed"}) => (ToMatch(t) >= ToMatch(g) /\ t.cw >= g.cw)
+\* the engine's minimum-raise field is the size of the last full bet or raise (the big blind before any)
+C12_minRaise(t, h2) == (Betting(t) /\ h2.valid) => t.prs = h2.mr
 C12_bounds(t) == Started(t) =>
   /\ \A i \in Seats(t) : LET p == t.P[i] IN p.stack >= 0 /\ p.wager >= 0 /\ p.pot >= 0 /\ p.stack <= p.bankroll
   /\ \A k \in 1..Len(t.pots) : t.pots[k].total >= 0
@@ -299,11 +319,12 @@ FailedState(t, h2, props) ==
   (IF "C05" \in props THEN N("C05.notLate", C05_notLate(t, h2)) \cup N("C05.fullBoard", C05_fullBoard(t)) ELSE {}) \cup
   (IF "C06" \in props THEN N("C06.waitPoint", C06_waitPoint(t)) \cup N("C06.result", C06_result(t))
                            \cup N("C06.bounded", C06_bounded(t, h2)) ELSE {}) \cup
-  (IF "C11" \in props THEN N("C11.offer", C11_offer(t)) ELSE {}) \cup
-  (IF "C12" \in props THEN N("C12.cwIsToMatch", C12_cwIsToMatch(t)) \cup N("C12.bounds", C12_bounds(t)) ELSE {}) \cup
+  (IF "C11" \in props THEN N("C11.offer", C11_offer(t, h2)) ELSE {}) \cup
+  (IF "C12" \in props THEN N("C12.cwIsToMatch", C12_cwIsToMatch(t)) \cup N("C12.bounds", C12_bounds(t))
+                           \cup N("C12.minRaiseIsLastFullRaise", C12_minRaise(t, h2)) ELSE {}) \cup
   (IF "C13" \in props THEN N("C13.beforeBetting", C13_beforeBetting(t)) ELSE {}) \cup
   (IF "C14" \in props THEN N("C14.consumed", C14_consumed(t)) \cup N("C14.counts", C14_counts(t)) ELSE {})
-FailedStep(g, t, o, h2, props) ==
+FailedStep(g, t, o, h, h2, props) ==
   (IF "C01" \in props THEN N("C01.antePots", C01_antePots(g, t, o)) ELSE {}) \cup
   (IF "C04" \in props THEN N("C04.first", C04_first(g, t, o)) \cup N("C04.clockwise", C04_clockwise(g, t, o))
                            \cup N("C04.refused", C04_refused(g, t, o)) ELSE {}) \cup
@@ -314,14 +335,14 @@ FailedStep(g, t, o, h2, props) ==
                            \cup N("C06.streets", C06_streets(g, t, o))
                            \cup N("C06.closedIsFinal", C06_closedIsFinal(g, t, o)) ELSE {}) \cup
   (IF "C11" \in props THEN N("C11.effect", C11_effect(g, t, o)) ELSE {}) \cup
-  (IF "C12" \in props THEN N("C12.raise", C12_raise(g, t, o)) \cup N("C12.monotone", C12_monotone(g, t, o)) ELSE {}) \cup
+  (IF "C12" \in props THEN N("C12.raise", C12_raise(g, t, o, h)) \cup N("C12.monotone", C12_monotone(g, t, o)) ELSE {}) \cup
   (IF "C13" \in props THEN N("C13.ante", C13_ante(g, t, o)) \cup N("C13.blinds", C13_blinds(g, t, o)) ELSE {}) \cup
   (IF "C14" \in props THEN N("C14.stable", C14_stable(g, t, o)) ELSE {})
 
 (* Non-vacuity: names of the antecedents that were TRUE on this step.  The  *)
 (* wrappers count them; a property whose antecedent never fires was not     *)
 (* exercised.                                                               *)
-Exercised(g, t, o, h2) ==
+Exercised(g, t, o, h, h2) ==
   (IF o.op = "PayAnte" /\ o.ok THEN {"C01.antePots", "C13.ante"} ELSE {}) \cup
   (IF t.ev = "GameClosed" /\ g.ev # "GameClosed" THEN {"C01.result"} ELSE {}) \cup
   (IF t.ev = "GameClosed" /\ g.ev # "GameClosed" /\ Cardinality(Alive(t)) >= 2 THEN {"C05.fullBoard"} ELSE {}) \cup
@@ -339,8 +360,8 @@ Exercised(g, t, o, h2) ==
   (IF Acts(g, t, o) THEN {"C11.effect." \o o.op} ELSE {}) \cup
   (IF o.op = "Raise" /\ Betting(g) /\ CurOK(g) /\ o.seat = g.cur /\ Offered(g, "raise") /\ g.meta.limit = "no"
    THEN LET L == o.x  tm == ToMatch(g) IN
-        (IF L < g.P[o.seat].init /\ L > tm /\ L - tm >= g.prs THEN {"C12.raise.full"} ELSE {}) \cup
-        (IF L > tm /\ L - tm < g.prs THEN {"C12.raise.undersized"} ELSE {}) \cup
+        (IF L < g.P[o.seat].init /\ L > tm /\ L - tm >= MinRaise(g, h) THEN {"C12.raise.full"} ELSE {}) \cup
+        (IF L > tm /\ L - tm < MinRaise(g, h) THEN {"C12.raise.undersized"} ELSE {}) \cup
         (IF L < tm THEN {"C12.raise.below"} ELSE {})
    ELSE {}) \cup
   (IF o.op \in {"Bet", "Raise"} /\ o.x <= 0 THEN {"C12.nonpositiveAmount"} ELSE {}) \cup
